@@ -9,6 +9,7 @@ package swarm
 
 import (
 	"fmt"
+	"strings"
 	"testing"
 
 	"github.com/libp2p/go-libp2p/internal/verifh"
@@ -23,6 +24,21 @@ func c20State(c *BlackHoleSuccessCounter) int64 {
 	return int64(c.State())
 }
 
+// c20Internals reads the counter's private fields (the harness is in-package)
+func c20Internals(c *BlackHoleSuccessCounter) []int64 {
+	if c == nil {
+		return []int64{0, 0, 0}
+	}
+	c.mu.Lock()
+	defer c.mu.Unlock()
+	return []int64{int64(c.requests), int64(len(c.dialResults)), int64(c.successes)}
+}
+
+// c20View = state + internals of a counter (9 0 0 0 for a nil counter)
+func c20View(c *BlackHoleSuccessCounter) []int64 {
+	return append([]int64{c20State(c)}, c20Internals(c)...)
+}
+
 // enumerate every op sequence over {request, fail, ok} of the given depth
 func c20Enumerate(out *verifh.Out, n, minS, depth int) {
 	ops := make([]int, depth)
@@ -30,7 +46,7 @@ func c20Enumerate(out *verifh.Out, n, minS, depth int) {
 	rec = func(i int) {
 		if i == depth {
 			c := &BlackHoleSuccessCounter{N: n, MinSuccesses: minS, Name: "v"}
-			line := make([]int64, 0, 3+2*depth)
+			line := make([]int64, 0, 3+5*depth)
 			line = append(line, 0, int64(n), int64(minS))
 			blocked := false
 			for _, o := range ops {
@@ -49,6 +65,7 @@ func c20Enumerate(out *verifh.Out, n, minS, depth int) {
 					blocked = true
 				}
 				line = append(line, int64(o), obs)
+				line = append(line, c20Internals(c)...)
 			}
 			if blocked {
 				out.Cover("counter.exhaustive.reached_blocked")
@@ -116,6 +133,7 @@ func c20RandomCounter(out *verifh.Out, r *verifh.Rand, n, minS, length int) {
 			sawBlocked = true
 		}
 		line = append(line, int64(o), obs)
+		line = append(line, c20Internals(c)...)
 	}
 	out.Cover("counter.random.cases")
 	if sawBlocked {
@@ -140,21 +158,28 @@ type c20Tmpl struct {
 var c20Tmpls = []c20Tmpl{
 	{"/ip4/192.168.1.5/tcp/%d", 0},
 	{"/ip4/127.0.0.1/tcp/%d", 0},
+	{"/ip4/198.18.0.1/tcp/%d", 0},   // benchmarking range: neither public nor private
+	{"/ip4/203.0.113.7/tcp/%d", 0},  // documentation range
 	{"/ip4/1.2.3.4/tcp/%d", 1},
 	{"/dns4/example.com/tcp/%d", 1},
 	{"/ip4/8.8.4.4/tcp/%d/ws", 1},
 	{"/ip4/10.0.0.1/udp/%d/quic-v1", 2},
 	{"/ip4/192.168.0.9/udp/%d/quic-v1/webtransport", 2},
+	{"/ip4/198.18.0.1/udp/%d/quic-v1", 2},  // not public, not private
+	{"/ip4/203.0.113.7/udp/%d/quic-v1", 2},
+	{"/ip4/100.64.0.9/udp/%d/quic-v1", 2},  // CGNAT range
 	{"/ip4/1.2.3.4/udp/%d/quic-v1", 3},
 	{"/ip4/4.3.2.1/udp/%d/quic-v1/webtransport", 3},
 	{"/ip4/5.6.7.8/udp/%d/webrtc-direct", 3},
 	{"/dns4/example.com/udp/%d/quic-v1", 3},
 	{"/ip6/fd00::1/tcp/%d", 4},
 	{"/ip6/::1/tcp/%d", 4},
+	{"/ip6/2001:db8::1/tcp/%d", 4},  // documentation prefix: not public, not private
 	{"/ip6/2600::1/tcp/%d", 5},
 	{"/ip6/2a00:1450::5/tcp/%d/ws", 5},
 	{"/ip6/fe80::1/udp/%d/quic-v1", 6},
 	{"/ip6/fd12::7/udp/%d/quic-v1", 6},
+	{"/ip6/2001:db8::5/udp/%d/quic-v1", 6},
 	{"/ip6/2600::1/udp/%d/quic-v1", 7},
 	{"/ip6/2a00:1450::5/udp/%d/quic-v1/webtransport", 7},
 }
@@ -163,96 +188,142 @@ func c20Addr(t c20Tmpl, port int) ma.Multiaddr {
 	return ma.StringCast(fmt.Sprintf(t.format, port))
 }
 
-func c20Detector(out *verifh.Out, r *verifh.Rand, length int) {
+// templates usable through Swarm.filterKnownUndialables with a tcp+quic swarm:
+// plain tcp / quic-v1 over a literal IP, not link-local (those are removed by
+// other filters of that function)
+func c20SwarmOK(t c20Tmpl) bool {
+	f := t.format
+	if strings.Contains(f, "dns") || strings.Contains(f, "/ws") || strings.Contains(f, "webtransport") ||
+		strings.Contains(f, "webrtc") || strings.Contains(f, "fe80") {
+		return false
+	}
+	return true
+}
+
+type c20Flags struct {
+	flags      []int64
+	removedAny bool
+}
+
+// classify each input address as valid (1) / black-holed (0) / anomaly (2..5)
+func c20Classify(addrs, valid, bh []ma.Multiaddr) c20Flags {
+	cnt := len(addrs)
+	res := c20Flags{flags: make([]int64, cnt)}
+	vi := 0
+	for j, a := range addrs {
+		inV, inB := 0, 0
+		for _, x := range valid {
+			if x.Equal(a) {
+				inV++
+			}
+		}
+		for _, x := range bh {
+			if x.Equal(a) {
+				inB++
+			}
+		}
+		switch {
+		case inV == 1 && inB == 0:
+			res.flags[j] = 1
+			if vi >= len(valid) || !valid[vi].Equal(a) {
+				res.flags[j] = 4 // order not preserved
+			}
+			vi++
+		case inV == 0 && inB == 1:
+			res.flags[j] = 0
+			res.removedAny = true
+		case inV >= 1 && inB >= 1:
+			res.flags[j] = 2
+		default:
+			res.flags[j] = 3
+		}
+	}
+	if len(valid)+len(bh) != cnt {
+		for j := range res.flags {
+			res.flags[j] = 5
+		}
+	}
+	return res
+}
+
+func c20Detector(out *verifh.Out, r *verifh.Rand, length int, sw *Swarm) {
 	mk := func() (*BlackHoleSuccessCounter, int64, int64) {
-		if r.Chance(1, 5) {
+		if r.Chance(1, 6) {
 			return nil, 0, 0
 		}
-		n := 1 + r.Intn(3)
+		n := 1 + r.Intn(4)
 		m := r.Intn(n + 2)
 		return &BlackHoleSuccessCounter{N: n, MinSuccesses: m, Name: "x"}, int64(n), int64(m)
 	}
 	udp, un, um := mk()
 	ip6, vn, vm := mk()
-	ro := r.Chance(1, 3)
-	d := &blackHoleDetector{udp: udp, ipv6: ip6, readOnly: ro}
-	line := []int64{1, 0, un, um, vn, vm}
-	if ro {
-		line[1] = 1
+	// a read-write and a read-only detector sharing the two counters
+	dets := [2]*blackHoleDetector{
+		{udp: udp, ipv6: ip6, readOnly: false},
+		{udp: udp, ipv6: ip6, readOnly: true},
 	}
-	removedAny := false
+	line := []int64{1, un, um, vn, vm}
+	removedAny, usedRO, roAfterBlocked := false, false, false
 	for i := 0; i < length; i++ {
-		k := r.Intn(10)
+		k := r.Intn(12)
+		ro := 0
+		if r.Chance(1, 3) {
+			ro = 1
+			usedRO = true
+			if c20State(udp) == 2 || c20State(ip6) == 2 {
+				roAfterBlocked = true
+			}
+		}
+		d := dets[ro]
 		switch {
-		case k < 5: // FilterAddrs
+		case k < 5 || (k < 7 && sw != nil): // FilterAddrs, directly or through the swarm
+			viaSwarm := k >= 5
 			cnt := r.Intn(7)
 			addrs := make([]ma.Multiaddr, 0, cnt)
 			cls := make([]int64, 0, cnt)
 			for j := 0; j < cnt; j++ {
 				t := c20Tmpls[r.Intn(len(c20Tmpls))]
+				for viaSwarm && !c20SwarmOK(t) {
+					t = c20Tmpls[r.Intn(len(c20Tmpls))]
+				}
 				addrs = append(addrs, c20Addr(t, 1000+j))
 				cls = append(cls, t.cls)
 			}
 			in := make([]ma.Multiaddr, len(addrs))
 			copy(in, addrs)
-			valid, bh := d.FilterAddrs(in)
-			flags := make([]int64, cnt)
-			vi := 0
-			for j, a := range addrs {
-				inV, inB := 0, 0
-				for _, x := range valid {
-					if x.Equal(a) {
-						inV++
+			var fl c20Flags
+			if viaSwarm {
+				sw.bhd = d
+				good, errs := sw.filterKnownUndialables("somepeer", in)
+				var bh []ma.Multiaddr
+				for _, e := range errs {
+					if e.Cause == ErrDialRefusedBlackHole {
+						bh = append(bh, e.Address)
 					}
 				}
-				for _, x := range bh {
-					if x.Equal(a) {
-						inB++
-					}
-				}
-				switch {
-				case inV == 1 && inB == 0:
-					flags[j] = 1
-					// order preserved?
-					if vi >= len(valid) || !valid[vi].Equal(a) {
-						flags[j] = 4
-					}
-					vi++
-				case inV == 0 && inB == 1:
-					flags[j] = 0
-					removedAny = true
-				case inV >= 1 && inB >= 1:
-					flags[j] = 2
-				default:
-					flags[j] = 3
-				}
+				fl = c20Classify(addrs, good, bh)
+				line = append(line, 13, int64(ro), int64(cnt))
+				out.Cover("detector.op.filter_via_swarm")
+			} else {
+				valid, bh := d.FilterAddrs(in)
+				fl = c20Classify(addrs, valid, bh)
+				line = append(line, 10, int64(ro), int64(cnt))
+				out.Cover("detector.op.filter")
 			}
-			if len(valid)+len(bh) != cnt {
-				for j := range flags {
-					flags[j] = 5
-				}
+			if fl.removedAny {
+				removedAny = true
 			}
-			line = append(line, 10, int64(cnt))
 			line = append(line, cls...)
-			line = append(line, flags...)
-			out.Cover("detector.op.filter")
-		case k < 8: // RecordResult through the detector
+			line = append(line, fl.flags...)
+		case k < 10: // RecordResult through the detector
 			t := c20Tmpls[r.Intn(len(c20Tmpls))]
 			succ := r.Chance(1, 4)
 			d.RecordResult(c20Addr(t, 7), succ)
-			s := int64(0)
-			if succ {
-				s = 1
-			}
-			line = append(line, 11, t.cls, s)
+			line = append(line, 11, int64(ro), t.cls, c20b(succ))
 			out.Cover("detector.op.record")
 		default: // RecordResult directly on a shared counter
 			w := int64(r.Intn(2))
 			succ := r.Chance(1, 3)
-			s := int64(0)
-			if succ {
-				s = 1
-			}
 			c := udp
 			if w == 1 {
 				c = ip6
@@ -260,19 +331,30 @@ func c20Detector(out *verifh.Out, r *verifh.Rand, length int) {
 			if c != nil {
 				c.RecordResult(succ)
 			}
-			line = append(line, 12, w, s)
+			line = append(line, 12, w, c20b(succ))
 			out.Cover("detector.op.direct")
 		}
-		line = append(line, c20State(udp), c20State(ip6))
+		line = append(line, c20View(udp)...)
+		line = append(line, c20View(ip6)...)
 	}
 	out.Cover("detector.cases")
 	if removedAny {
 		out.Cover("detector.cases_with_removal")
 	}
-	if ro {
-		out.Cover("detector.cases_readonly")
+	if usedRO {
+		out.Cover("detector.cases_using_readonly")
+	}
+	if roAfterBlocked {
+		out.Cover("detector.cases_readonly_op_while_blocked")
 	}
 	out.Case(line)
+}
+
+func c20b(b bool) int64 {
+	if b {
+		return 1
+	}
+	return 0
 }
 
 func TestVerifC20(t *testing.T) {
@@ -334,8 +416,10 @@ func TestVerifC20(t *testing.T) {
 	if thorough {
 		nd = 120000
 	}
+	sw := makeSwarmWithNoListenAddrs(t)
+	defer sw.Close()
 	for i := 0; i < nd; i++ {
-		c20Detector(out, r, 5+r.Intn(40))
+		c20Detector(out, r, 5+r.Intn(40), sw)
 	}
 }
 
@@ -352,9 +436,9 @@ func TestVerifC20Replay(t *testing.T) {
 	if len(in) < 3 {
 		t.Fatal("no case")
 	}
-	tmplOf := func(cls int64) c20Tmpl {
+	tmplOf := func(cls int64, swarm bool) c20Tmpl {
 		for _, tm := range c20Tmpls {
-			if tm.cls == cls {
+			if tm.cls == cls && (!swarm || c20SwarmOK(tm)) {
 				return tm
 			}
 		}
@@ -363,7 +447,7 @@ func TestVerifC20Replay(t *testing.T) {
 	if in[0] == 0 {
 		c := &BlackHoleSuccessCounter{N: int(in[1]), MinSuccesses: int(in[2]), Name: "r"}
 		line := []int64{0, in[1], in[2]}
-		for i := 3; i+1 < len(in); i += 2 {
+		for i := 3; i+4 < len(in); i += 5 {
 			var obs int64
 			switch in[i] {
 			case 0:
@@ -376,6 +460,7 @@ func TestVerifC20Replay(t *testing.T) {
 				obs = int64(c.State())
 			}
 			line = append(line, in[i], obs)
+			line = append(line, c20Internals(c)...)
 		}
 		out.Case(line)
 		return
@@ -386,37 +471,46 @@ func TestVerifC20Replay(t *testing.T) {
 		}
 		return &BlackHoleSuccessCounter{N: int(n), MinSuccesses: int(m), Name: "r"}
 	}
-	udp, ip6 := mk(in[2], in[3]), mk(in[4], in[5])
-	d := &blackHoleDetector{udp: udp, ipv6: ip6, readOnly: in[1] != 0}
-	line := append([]int64{}, in[:6]...)
-	for i := 6; i < len(in); {
+	udp, ip6 := mk(in[1], in[2]), mk(in[3], in[4])
+	dets := [2]*blackHoleDetector{{udp: udp, ipv6: ip6}, {udp: udp, ipv6: ip6, readOnly: true}}
+	sw := makeSwarmWithNoListenAddrs(t)
+	defer sw.Close()
+	line := append([]int64{}, in[:5]...)
+	for i := 5; i < len(in); {
 		switch in[i] {
-		case 10:
-			k := int(in[i+1])
-			cls := in[i+2 : i+2+k]
+		case 10, 13:
+			d := dets[in[i+1]]
+			k := int(in[i+2])
+			cls := in[i+3 : i+3+k]
 			addrs := make([]ma.Multiaddr, k)
 			for j := range addrs {
-				addrs[j] = c20Addr(tmplOf(cls[j]), 1000+j)
+				addrs[j] = c20Addr(tmplOf(cls[j], in[i] == 13), 1000+j)
 			}
 			cp := make([]ma.Multiaddr, k)
 			copy(cp, addrs)
-			valid, _ := d.FilterAddrs(cp)
-			line = append(line, 10, int64(k))
-			line = append(line, cls...)
-			for _, a := range addrs {
-				f := int64(0)
-				for _, x := range valid {
-					if x.Equal(a) {
-						f = 1
+			var fl c20Flags
+			if in[i] == 13 {
+				sw.bhd = d
+				good, errs := sw.filterKnownUndialables("somepeer", cp)
+				var bh []ma.Multiaddr
+				for _, e := range errs {
+					if e.Cause == ErrDialRefusedBlackHole {
+						bh = append(bh, e.Address)
 					}
 				}
-				line = append(line, f)
+				fl = c20Classify(addrs, good, bh)
+			} else {
+				valid, bh := d.FilterAddrs(cp)
+				fl = c20Classify(addrs, valid, bh)
 			}
-			i += 2 + 2*k + 2
+			line = append(line, in[i], in[i+1], int64(k))
+			line = append(line, cls...)
+			line = append(line, fl.flags...)
+			i += 3 + 2*k + 8
 		case 11:
-			d.RecordResult(c20Addr(tmplOf(in[i+1]), 7), in[i+2] != 0)
-			line = append(line, 11, in[i+1], in[i+2])
-			i += 5
+			dets[in[i+1]].RecordResult(c20Addr(tmplOf(in[i+2], false), 7), in[i+3] != 0)
+			line = append(line, 11, in[i+1], in[i+2], in[i+3])
+			i += 4 + 8
 		default:
 			c := udp
 			if in[i+1] == 1 {
@@ -426,9 +520,10 @@ func TestVerifC20Replay(t *testing.T) {
 				c.RecordResult(in[i+2] != 0)
 			}
 			line = append(line, 12, in[i+1], in[i+2])
-			i += 5
+			i += 3 + 8
 		}
-		line = append(line, c20State(udp), c20State(ip6))
+		line = append(line, c20View(udp)...)
+		line = append(line, c20View(ip6)...)
 	}
 	out.Case(line)
 }
